@@ -268,6 +268,10 @@ def trace_place(body, place, identity=IDENTITY_CALLS, _depth=0, steps=None, proj
         if key in seen:
             continue
         seen2 = seen | {key}
+        if wanted is not None and d[0] == "assign" and d[3]["k"] == "aggregate" and d[3].get("ak") == "adt" and d[3].get("variant") \
+                and isinstance(first, dict) and first.get("downcast") and d[3]["variant"] != wanted \
+                and wanted not in _SUCCESS + _FAILURE and d[3]["variant"] not in _SUCCESS + _FAILURE:
+            continue    # the payload of variant `wanted` is read: a value built as another variant of the enum is not where it comes from
         if wclass is not None:
             if d[0] == "assign" and d[3]["k"] == "aggregate" and d[3].get("ak") == "adt":
                 v = d[3].get("variant")
